@@ -9,10 +9,12 @@ package main
 import (
 	"bytes"
 	"fmt"
+	"os"
 	"strconv"
 	"strings"
 
 	"github.com/mithrandie/csvq/lib/option"
+	"github.com/mithrandie/csvq/lib/value"
 	"github.com/mithrandie/go-text"
 	"github.com/mithrandie/go-text/fixedlen"
 
@@ -149,4 +151,146 @@ func autoCase(g *hc.Gen, o *hc.Out, dir string) {
 		}
 	}
 	autoRun(o, dir, data, op, src)
+}
+
+// ---------- tables whose column population CHANGES along the file ----------
+//
+// The position detection must see the WHOLE file: a column that is blank in every record of the first k
+// records (NULL cells) and holds values further down — or the other way round — is a column all the same.
+// The files are sized around every buffer of the readers: the 2048-byte head file.NewReader keeps for the
+// detection of the encoding, the 4096-byte bufio / transform buffers of fixedlen.Delimiter and fixedlen.Reader
+// (and their multiples), the 300 records readRecordSet prepares room for; the thorough tier adds 65536.
+// The oracle is the model's detection over the whole text (ops c02.fpos / c02.deca: positions and loaded
+// table = model), and on the real code alone the write-then-read law, where a failure is attributed to
+// `positions_not_detected_on_whole_file` when fixedlen.Delimiter.Delimit on the WHOLE written file finds
+// positions under which the file reads back (so the heuristic, F16, is not what lost the column).
+
+var driftBoundaries = []int{2048, 2048, 2048, 4096, 4096, 8192, 12288}
+
+var driftWords = []string{"a", "bc", "Q", "x_y", "v1", "7", "k", "abc", "zz9", "é"}
+
+// driftTable: nr records of nc columns; column 0 names the record, column `late` follows the pattern
+//
+//	late_start   NULL in the first k records, a value in all the others
+//	early_stop   a value in the first k records, NULL in all the others
+//	sparse_tail  NULL in the first k records, a value in every third record after that
+//
+// every other column always holds a value
+func driftTable(g *hc.Gen, nc, nr, late, k int, pattern string) *table {
+	t := &table{header: genHeader(g, nc, risk{}, true), rows: make([][]cell, nr)}
+	for i := range t.rows {
+		t.rows[i] = make([]cell, nc)
+		t.rows[i][0] = cS(fmt.Sprintf("r%04d", i))
+		for j := 1; j < nc; j++ {
+			filled := true
+			if j == late {
+				switch pattern {
+				case "late_start":
+					filled = i >= k
+				case "early_stop":
+					filled = i < k
+				case "sparse_tail":
+					filled = i >= k && (i-k)%3 == 0
+				}
+			}
+			if filled {
+				t.rows[i][j] = cS(driftWords[g.Intn(len(driftWords))])
+			} else {
+				t.rows[i][j] = mkCell(value.NewNull())
+			}
+		}
+	}
+	return t
+}
+
+// driftPlan: table and settings for a file of about `size` bytes whose late column changes at about byte `at`
+func driftPlan(g *hc.Gen, size, at int, pattern string, withoutHeader bool, lb text.LineBreak) (*table, opts) {
+	nc := 2 + g.Intn(3)
+	late := 1 + g.Intn(nc-1)
+	op := baseOpts(option.FIXED)
+	op.withoutHeader, op.lb = withoutHeader, lb
+	// the width of a record: measure a small table of the same shape
+	probe := driftTable(g, nc, 12, late, 0, "late_start")
+	b, err := realEncode(probe, opts{format: option.FIXED, lb: lb, enc: text.UTF8, withoutHeader: true})
+	must(err)
+	w := (len(b) + len(lb.Value())) / 12
+	nr := max(3, size/w)
+	k := min(max(1, at/w), nr-1)
+	t := driftTable(g, nc, nr, late, k, pattern)
+	t.header = probe.header
+	return t, op
+}
+
+func driftRun(o *hc.Out, dir string, t *table, op opts, tag string) {
+	op.positions = nil
+	b, err := realEncode(t, op)
+	must(err)
+	data := append(append([]byte{}, b...), op.lb.Value()...)
+	o.Count(fmt.Sprintf("drift:%s:h%s:%dKiB", lbName(op.lb), b01(!op.withoutHeader), (len(data)+1023)/1024))
+	// positions and loaded table = the model's, over the whole text
+	autoRun(o, dir, data, op, "drift")
+	// and the write-then-read law on the real code
+	r, names := rtRun(o, dir, t, op, false, tag)
+	if tag != "" {
+		out := r.outcome
+		for _, n := range names {
+			out += "+" + n
+		}
+		o.Count("corpus:" + tag + ":" + out)
+	}
+}
+
+var driftPatterns = []string{"late_start", "late_start", "early_stop", "sparse_tail"}
+
+func driftCase(g *hc.Gen, o *hc.Out, dir string) {
+	bnd := driftBoundaries[g.Intn(len(driftBoundaries))]
+	if os.Getenv("VERIF_TIER") == "thorough" && g.Intn(6) == 0 {
+		bnd = 65536
+	}
+	// the file ends somewhere between the boundary and twice the boundary (sometimes right at it), the late
+	// column changes on either side of the boundary
+	size := bnd + g.Intn(bnd)
+	at := bnd - 200 + g.Intn(bnd/2+400)
+	switch g.Intn(6) {
+	case 0:
+		size = bnd + g.Intn(120) - 40
+		at = bnd / 2
+	case 1:
+		at = bnd + g.Intn(80) - 40
+	}
+	lb := []text.LineBreak{text.LF, text.LF, text.CRLF}[g.Intn(3)]
+	t, op := driftPlan(g, size, at, driftPatterns[g.Intn(len(driftPatterns))], g.Intn(3) != 0, lb)
+	driftRun(o, dir, t, op, "")
+}
+
+// driftCorpus: whatever the seed — a column that starts after the 2 KiB head / after the first 4 KiB, with and
+// without header line
+func driftCorpus(o *hc.Out, dir string) {
+	g := hc.NewGen(20240914)
+	for _, c := range []struct {
+		size, at int
+		pattern  string
+	}{
+		{5000, 2600, "late_start"}, {9000, 4500, "late_start"}, {3000, 2100, "late_start"}, {5000, 2600, "early_stop"}, {6000, 2300, "sparse_tail"},
+	} {
+		for _, woh := range []bool{true, false} {
+			t, op := driftPlan(g, c.size, c.at, c.pattern, woh, text.LF)
+			driftRun(o, dir, t, op, fmt.Sprintf("drift.%s.size_%d.change_at_%d.header_%s", c.pattern, c.size, c.at, b01(!woh)))
+		}
+	}
+}
+
+// wholeFilePositions: what fixedlen.Delimiter.Delimit finds on the whole file (nil = error)
+func wholeFilePositions(data []byte, op opts) []int {
+	d, err := fixedlen.NewDelimiter(bytes.NewReader(data), op.enc)
+	if err != nil {
+		return nil
+	}
+	d.NoHeader = op.withoutHeader
+	d.Encoding = op.enc
+	ps, err := d.Delimit()
+	if err != nil {
+		return nil
+	}
+	return ps
 }
